@@ -332,4 +332,55 @@ def connLoop (reg : Registry) (beh : Behaviour) : List Bytes → ConnTrace
         { frames := o.frames ++ t.frames, dispatched := dispatchEntry o ++ t.dispatched,
           handled := t.handled + 1, ending := t.ending }
 
+
+
+/-! ## Wire form of replies (json.Marshal of `serviceReply`) -/
+
+/-- `serviceReply` with its `omitempty` tags: parameters (nil interface omitted), continues, error -/
+def replyObj (f : ReplyFrame) : JVal :=
+  let tail : JMembers :=
+    (if f.continues then JMembers.cons (str "continues") (.bool true) else id)
+      (if f.error.isEmpty then JMembers.nil else JMembers.cons (str "error") (.str f.error) .nil)
+  .obj (match f.params with
+        | some v => .cons (str "parameters") v tail
+        | none => tail)
+
+/-- the bytes `sendMessage` writes for one reply -/
+def wireReply (f : ReplyFrame) : Bytes := render (replyObj f) ++ [0]
+
+/-! ## Small-step view of a connection, and several connections under a schedule -/
+
+structure ConnState where
+  pending : List Bytes := []
+  frames : List ReplyFrame := []
+  dispatched : List (Bytes × Bytes × List ActResult) := []
+  handled : Nat := 0
+  closed : Option ConnEnd := none
+
+/-- one iteration of the `handleConnection` loop -/
+def connStep (reg : Registry) (beh : Behaviour) (s : ConnState) : ConnState :=
+  match s.closed with
+  | some _ => s
+  | none =>
+    match s.pending with
+    | [] => { s with closed := some .eof }
+    | f :: fs =>
+      match decodeCall f with
+      | none => { s with pending := fs, closed := some .badFrame }
+      | some c =>
+        let o := handleCall reg beh c
+        { pending := fs, frames := s.frames ++ o.frames, dispatched := s.dispatched ++ dispatchEntry o,
+          handled := s.handled + 1, closed := if o.failed then some .handlerError else none }
+
+def connSteps (reg : Registry) (beh : Behaviour) : Nat → ConnState → ConnState
+  | 0, s => s
+  | n + 1, s => connSteps reg beh n (connStep reg beh s)
+
+/-- a system of connections indexed by `Nat`; the schedule says whose loop iteration runs next.
+    The registry is shared and read-only: no step changes it. -/
+def runSchedule (reg : Registry) (beh : Behaviour) (σ : Nat → ConnState) : List Nat → (Nat → ConnState)
+  | [] => σ
+  | i :: rest =>
+    runSchedule reg beh (fun j => if j = i then connStep reg beh (σ j) else σ j) rest
+
 end Varlink
